@@ -270,7 +270,8 @@ def run(tier="quick", seed=0, replay=None):
     chk = core.Check("C18", tier, seed, "other")
     chk.rule = (f"{len(CONFIGS)} explainer x storage x imputer configurations (PFI, SAGE, batch, interval; geometric, uniform, default, tree "
                 "storages; joint, product, tree, default imputers), float mode, 14-observation drifting stream, seeds drawn from VERIF_SEED: "
-                "replay pair, replay after decoys, recorded replay pair; child processes under 2 other PYTHONHASHSEED values. "
+                "replay pair, replay after decoys, recorded replay pair, virtual clock; per-call budgets below / above the configured one; an unused "
+                "default-constructed TreeStorage created after seeding; child processes under 2 other PYTHONHASHSEED values. "
                 "Non-trivial: always; distinct by hash of (configuration, seeds, mode).")
     chk.trusted = ["Lean 4.33.0 kernel for the locality theorems (Props/C18.lean)", "random.seed / np.random.seed fully determine the global generators (library contract)",
                    "TreeStorage is given an explicit seed (with seed=None river's trees seed themselves from the OS: outside the property)"]
